@@ -1,4 +1,5 @@
 //! Reference models: written from the property statements and doc/syntax.md.
 pub mod num;
 pub mod book;
+pub mod expr;
 pub mod q;
